@@ -70,6 +70,8 @@ LeafDef == [
   dft   |-> Leaf(Fin(R(13), Speed), TRUE),        \* Derivative(f(t), t)          : length / time
   d2ft  |-> Leaf(Fin(R(-2), Accel), TRUE),        \* Derivative(f(t), (t, 2))     : length / time^2
   dgxt  |-> Leaf(Fin(R(3), LMT(RZero, ROne, R(-1), RZero)), TRUE), \* Derivative(g(x, t), x, t), g: mass*length -> M/T
+  fdx   |-> Leaf(Fin(R(23), L1), TRUE),           \* FiniteDifference(x): a wrapper leaf that carries the inferred
+                                                  \*   dimension of its argument (length) as its declared one
   dLq   |-> Leaf(Fin(R(19), DDiv(Energy, L1)), TRUE)               \* Derivative(L(f(t), t), f(t)): energy / length
                                                                    \*   (the variable is an APPLIED function)
 ]
